@@ -417,10 +417,11 @@ def randomize_weights(model, rng):
   model.set_weights(ws)
 
 
-def random_opts(kind, rng):
+def random_opts(kind, rng, rep=0):
   o = {}
-  if rng.integers(0, 4) == 0 and "LSTM" not in kind and kind != "QBidirectional":
-    o["use_bias"] = False      # QLSTMCell.call does not build without a bias (unrelated to C13)
+  # every second model of a kind is bias-less (QLSTMCell.call does not build without a bias: skipped)
+  if rep % 2 == 1 and "LSTM" not in kind and kind != "QBidirectional":
+    o["use_bias"] = False
   if kind in ("QConv1D", "QConv2D", "QDepthwiseConv2D") and rng.integers(0, 2):
     o["padding"] = "same"
   if kind in ("QConv1D", "QConv2D") and rng.integers(0, 2):
@@ -499,51 +500,63 @@ def ema_case(run, rng, scratch):
   over by all three routes, but `call` quantizes with the integer bits assigned by the PREVIOUS call
   (the build-time value right after a rebuild), so the first prediction of the rebuilt model differs.
   Recorded defect; `mirrored` = the recorded signature is observed exactly (first predict differs,
-  EMA variables equal, second predict identical)."""
+  EMA variables equal).  The SECOND prediction must be bit-identical (clause `second-predict`): that
+  is where a dropped QAdaptiveActivation option shows once the EMA state is non-trivial."""
   import tensorflow as tf
   import qkeras as Q
   from qkeras.utils import clone_model, quantized_model_from_json, load_qmodel
-  tf.keras.backend.clear_session()
-  inp = tf.keras.layers.Input((5,))
-  layer = Q.QAdaptiveActivation("quantized_bits", 4, ema_decay=0.5, quantization_delay=1)
-  model = tf.keras.Model(inp, layer(inp))
-  x = (rng.normal(0, 1, (3, 5)) * 3).astype(np.float32)
-  for _ in range(6):
-    model(x, training=True)
-  y = np.asarray(model.predict(x, verbose=0))
-  run.case(("ema", "QAdaptiveActivation"), sample={"stream": "ema", "model": "QAdaptiveActivation trained EMA",
-                                                   "integer_bits": canon(layer.quantizer.integer.numpy()).__str__()})
-  run.count("kind_ema_QAdaptiveActivation")
-  for r in ROUTES:
-    try:
-      if r == "json":
-        m2 = quantized_model_from_json(model.to_json())
-        m2.set_weights(model.get_weights())
-      elif r == "clone":
-        m2 = clone_model(model)
-      else:
-        path = os.path.join(scratch, "ema.h5")
-        model.save(path)
-        m2 = load_qmodel(path, compile=False)
-        os.remove(path)
-      z1 = np.asarray(m2.predict(x, verbose=0))
-      z2 = np.asarray(m2.predict(x, verbose=0))
-      same_state = all(np.array_equal(a, b) for a, b in zip(model.get_weights()[1:], m2.get_weights()[1:]))
-      if z1.tobytes() != y.tobytes():
-        run.count("ema_first_predict_differs")
-        run.violate("route", {"layer": "QAdaptiveActivation", "qclass": "QAdaptiveActivation",
-                              "option": "trained-ema-state", "route": r, "failure": "predict-differs"},
-                    {"model": "QAdaptiveActivation('quantized_bits', 4, ema_decay=0.5, quantization_delay=1) after "
-                              "6 training calls", "route": r, "first_predict_equal": False,
-                     "second_predict_equal": bool(z2.tobytes() == y.tobytes()), "ema_state_equal": bool(same_state),
-                     "integer_bits_original": canon(layer.quantizer.integer.numpy())},
-                    mirrored=bool(z2.tobytes() == y.tobytes() and same_state))
-      else:
-        run.count("ema_first_predict_same")
-    except Exception as e:  # pylint: disable=broad-except
-      run.violate("route", {"layer": "QAdaptiveActivation", "qclass": "QAdaptiveActivation",
-                            "option": "trained-ema-state", "route": r, "failure": "raises"},
-                  {"exception": type(e).__name__, "message": str(e)[:300]}, mirrored=False)
+  variants = [
+      ("quantized_bits", dict(ema_decay=0.5, quantization_delay=1)),
+      ("quantized_bits", dict(ema_decay=0.5, quantization_delay=1, po2_rounding=True, symmetric=False)),
+      ("quantized_relu", dict(ema_decay=0.25, quantization_delay=1, per_channel=True, relu_neg_slope=0.25)),
+  ]
+  for act, kw in variants:
+    tf.keras.backend.clear_session()
+    inp = tf.keras.layers.Input((5,))
+    layer = Q.QAdaptiveActivation(act, 4, **kw)
+    model = tf.keras.Model(inp, layer(inp))
+    x = (rng.normal(0, 1, (3, 5)) * 3).astype(np.float32)
+    for _ in range(6):
+      model(x, training=True)
+    y = np.asarray(model.predict(x, verbose=0))
+    label = "QAdaptiveActivation(%r, 4, %s) after 6 training calls" % (
+        act, ", ".join("%s=%r" % kv for kv in sorted(kw.items())))
+    run.case(("ema", label), sample={"stream": "ema", "model": label,
+                                     "integer_bits": str(canon(layer.quantizer.integer.numpy()))}
+             if "po2_rounding" in kw else None)
+    run.count("kind_ema_QAdaptiveActivation")
+    for r in ROUTES:
+      key = {"layer": "QAdaptiveActivation", "qclass": "QAdaptiveActivation", "option": "trained-ema-state",
+             "route": r}
+      try:
+        if r == "json":
+          m2 = quantized_model_from_json(model.to_json())
+          m2.set_weights(model.get_weights())
+        elif r == "clone":
+          m2 = clone_model(model)
+        else:
+          path = os.path.join(scratch, "ema.h5")
+          model.save(path)
+          m2 = load_qmodel(path, compile=False)
+          os.remove(path)
+        z1 = np.asarray(m2.predict(x, verbose=0))
+        z2 = np.asarray(m2.predict(x, verbose=0))
+        same_state = all(np.array_equal(a, b) for a, b in zip(model.get_weights()[1:], m2.get_weights()[1:]))
+        detail = {"model": label, "route": r, "first_predict_equal": bool(z1.tobytes() == y.tobytes()),
+                  "second_predict_equal": bool(z2.tobytes() == y.tobytes()), "ema_state_equal": bool(same_state),
+                  "integer_bits_original": canon(layer.quantizer.integer.numpy()),
+                  "integer_bits_rebuilt": canon(m2.layers[1].quantizer.integer.numpy())}
+        if z2.tobytes() != y.tobytes() or not same_state:
+          run.count("ema_second_predict_differs")
+          run.violate("route", dict(key, failure="second-predict-differs"), detail, mirrored=False)
+        elif z1.tobytes() != y.tobytes():
+          run.count("ema_first_predict_differs")
+          run.violate("route", dict(key, failure="predict-differs"), detail, mirrored=True)
+        else:
+          run.count("ema_first_predict_same")
+      except Exception as e:  # pylint: disable=broad-except
+        run.violate("route", dict(key, failure="raises"),
+                    {"model": label, "exception": type(e).__name__, "message": str(e)[:300]}, mirrored=False)
 
 
 # ----------------------------------------------------------------------------- the check
@@ -703,7 +716,7 @@ def run(run: core.Run, tier: str):
           an, aq = "none", None
         if kind == "QBatchNormalization" and rep == 0:
           wn, wq = "defaults", None
-        opts = random_opts(kind, rng)
+        opts = random_opts(kind, rng, rep)
         if kind.startswith("Q") and kind.endswith("RNN") or kind in ("QLSTM", "QGRU", "QBidirectional") or kind.startswith("RNN("):
           # state quantizer must be an object quantizer
           if an.startswith("str:"):
